@@ -51,14 +51,17 @@ CHECKS = {
             "must produce the denoted code points / octets / number (or an error for out-of-range integers).",
             "Trusted: TLC, BigInt. Floats are compared only when the spelled decimal is exactly representable.", "5/C07"),
     "C09": ("TLA+ reference evaluator CelEval (index, lookup, in, size, concatenation, map construction, has, string functions, the "
-            "five macros) checked by TLC for the laws of the statement; every template program replayed under both runners; random "
-            "programs validated by TLC trace spec Trace_Eval",
+            "five macros) and reference regular-expression matcher CelRegex (parser + end-position matcher) checked by TLC for the laws of the "
+            "statement; every template program and every pattern x text replayed under both runners; random programs validated by Trace_Eval",
             "TLC instantiates program templates over value pools (every boundary index from MIN to MAX, present / missing / wrong-type "
             "keys, duplicate keys, non-BMP strings, failing predicates, nested macros), checks map-keeps-size, filter-is-subsequence, "
             "exists_one-counts, in-iff-exists, concat-prefix and bad-index-is-error on the specification, and the implementation must "
-            "return the specified value or error for each program.",
-            "Trusted: TLC, BigInt, the AST renderer. Regular expressions (matches) are not modelled; heterogeneous containers are "
-            "indefinite.", "5/C09"),
+            "return the specified value or error for each program. For matches(), TLC enumerates EVERY pattern over the alphabet "
+            "a b . * + ? | ( ) [ ] ^ $ \\ - up to 3 (thorough: 4) symbols against ten texts with the reference matcher (laws: a literal pattern "
+            "is containment, anchors are prefix / suffix / equality, alternation is union, validity is text-independent); the library must "
+            "return the same boolean, and an evaluation error for each invalid pattern -- also inside a list literal and under ||.",
+            "Trusted: TLC, BigInt, the AST renderer. Regex syntax outside the fragment (counted repetition, (?..) groups, POSIX classes, "
+            "other escapes) is 'unk' in the spec and not compared; heterogeneous containers are indefinite.", "5/C09"),
     "C13": ("TLA+ reference evaluator CelEval with type tags (TypeName(Eval(e))) checked by TLC; every typed root expression replayed: "
             "value, Python class of the result (isinstance of the celtypes class) and the twelve answers of type(e) == T, both runners",
             "TLC instantiates every operator, built-in predicate, macro and literal with operands of each of the twelve CEL types, "
@@ -100,7 +103,8 @@ CHECKS = {
     "C05": ("TLA+ state machine CelApi (NewEnv / Program / Evaluate; Outcome is a function of declarations, expression and bindings) "
             "model-checked by TLC (action property HistoryFree over all histories to depth 4); TLC-generated histories (exhaustive short, "
             "simulated long, pairwise binding sequences) replayed one per forked process; random histories validated by Trace_C05",
-            "Every history of API calls up to depth 4 (2 runner classes x 4 declaration kinds x 6 expressions x 7 bindings) is a "
+            "Every history of API calls up to depth 4 (2 runner classes x 4 declaration kinds x 10 expressions -- four of them programs built with / "
+            "without application functions, one overriding a built-in -- x 7 bindings) is a "
             "state of the model and HistoryFree is checked on each step; behaviours of that machine are replayed into the library, each "
             "in a process forked from a parent that only imported the library, and every Evaluate is compared with the specification's "
             "Outcome and with the same evaluation performed alone (cross-checked against fresh interpreters); the caller's bindings are "
